@@ -315,7 +315,13 @@ pub fn check_kkt(c: &KktCase, ctx: &mut Ctx) -> CheckResult {
     let mut solver = catch(|| DirectLDLKKTSolver::<f64>::new(&pm, &am, &comp, m, n, &settings)).map_err(|p| format!("KKT solver construction panicked: {p}"))?;
     ensure!(comp.update_scaling(&c.s, &c.z, c.mu, strategy), "update_scaling failed on interior points");
     let ok = catch(|| solver.update(&comp, &settings)).map_err(|p| format!("KKT update panicked: {p}"))?;
-    ensure!(ok, "KKT update/refactor reported failure on a well-conditioned scaling point");
+    // without static regularisation the factorisation of [P A'; A -H] may legitimately meet a zero pivot
+    // (P is only semidefinite); the property is about the assembled matrix, which is written before factoring
+    if !ok && !c.static_reg {
+        ctx.label("refactor-failed-without-static-regularisation");
+    } else {
+        ensure!(ok, "KKT update/refactor reported failure on a well-conditioned scaling point");
+    }
     let snap = solver.verif_snapshot();
     ctx.label(format!("live:{}", if snap.is_triu { "triu" } else { "tril" }));
     check_static_values_free(c, &snap, &comp)?;
@@ -408,7 +414,11 @@ pub fn check_kkt(c: &KktCase, ctx: &mut Ctx) -> CheckResult {
     if sym_all {
         comp.set_identity_scaling();
         let ok = catch(|| solver.update(&comp, &settings)).map_err(|p| format!("KKT update panicked: {p}"))?;
-        ensure!(ok, "KKT update failed under identity scaling");
+        if !ok && !c.static_reg {
+            ctx.label("refactor-failed-without-static-regularisation");
+        } else {
+            ensure!(ok, "KKT update failed under identity scaling");
+        }
         let snap2 = solver.verif_snapshot();
         let kd2 = dense_sym(&snap2);
         let mut h2 = zeros(m, m);
